@@ -702,6 +702,42 @@ def digest_lookup(ctx, body, lo):
     return None
 
 
+class DecodeSite:
+    """where a message is decoded from bytes: `call` = the fallible prost call, args[0] = the bytes, value = the local
+    (or call result) holding the message"""
+    def __init__(self, call, blob, value):
+        self.call = call; self.bb = call.bb; self.args = [blob]; self.value = value
+
+
+def loop_header(body, bb):
+    best = None
+    for h, blocks in body.loops().items():
+        if bb in blocks and (best is None or len(blocks) < len(best[1])): best = (h, blocks)
+    return best[0] if best else None
+
+
+def decode_sites(body):
+    """T::decode(bytes)   ≡   let mut m = T::default(); m.merge(bytes)?;   (the latter is the body of prost's Message::decode).
+    The merge form counts only for a FRESH value merged ONCE: the receiver's single definition is `default()`, made in the
+    same loop iteration as the merge (not a message reused across the layers of a loop), and this merge is the only place
+    that borrows it mutably or writes to it."""
+    out = []
+    for c in body.calls:
+        if not (c.trait or '').endswith('prost::Message'): continue
+        if c.item in DECODERS and c.args:
+            out.append(DecodeSite(c, c.args[0], c.dst['l']))
+        elif c.item == 'merge' and len(c.args) == 2 and c.args[0]['k'] in ('copy', 'move'):
+            m, proj = origin(body, c.args[0]['pl'])
+            defs = [d for d in body.defs_of(m) if not (d[0] == 'stmt' and d[2]['dst']['p'])]
+            if proj or len(defs) != 1 or defs[0][0] != 'call': continue
+            made = [x for x in body.calls if x.bb == defs[0][1]][0]
+            if made.item != 'default' or made.args: continue
+            if len(mutations_of(body, {m})) != 1 or len(body.defs_of(m)) != 1: continue
+            if loop_header(body, made.bb) != loop_header(body, c.bb): continue
+            out.append(DecodeSite(c, c.args[1], m))
+    return out
+
+
 def over_all_layers(ctx, body, lo):
     """the loop iterates over the result of `OciArtifact::get_layers` (all (descriptor, blob) pairs in manifest order)"""
     return any(x.item == 'get_layers' and 'OciArtifact' in x.name for x in ctx.S.slice_operand(body, lo[0].args[0]).call_objs)
@@ -760,7 +796,7 @@ def kinds_rules(ctx):
         g = ctx.method(R + '/%s/get/anchor' % kind, ART, getf)
         if g is not None:
             gl = [c for c in g.calls if c.item == 'get_layer' and c.path.endswith('Artifact::<Base>::get_layer')]
-            dec = [c for c in g.calls if c.item in DECODERS and (c.trait or '').endswith('prost::Message')]
+            dec = decode_sites(g)
             fd = [c for c in g.calls if c.item == 'from_descriptor' and ann in c.path]
             # ... or get_layer written out in place (the helper inlined by hand): a loop over get_layers() with the digest test;
             # its item (the `next` call) then stands for the lookup's result
@@ -796,13 +832,13 @@ def kinds_rules(ctx):
                 src = origin(g, d.args[0]['pl'])[0] if d.args[0]['k'] in ('copy', 'move') else None
                 sdefs = [x for x in g.defs_of(src) if not (x[0] == 'stmt' and x[2]['dst']['p'])] if src is not None else []
                 if len(sdefs) == 1 and sdefs[0][0] == 'call' and not any(l.bb == sdefs[0][1] for l in used): from_layer = False
-                returned = bool(pay) and all(d in ctx.S.slice_operand(g, p).call_objs for p in pay)
-                if from_layer and returned and message_type_is(g, d, msg, value_local=d.dst['l']) and g.locals[0].startswith('std::result::Result<(%s, ' % msg): okd = True
+                returned = bool(pay) and all(d.call in ctx.S.slice_operand(g, p).call_objs for p in pay)
+                if from_layer and returned and message_type_is(g, d.call, msg, value_local=d.value) and g.locals[0].startswith('std::result::Result<(%s, ' % msg): okd = True
             ctx.check(okd, R + '/%s/get/decodes-message' % kind, 'T-SIBLING', g.name, 'the blob of the layer is not decoded as %s' % msg, g.site())
-            propagates(ctx, R + '/%s/get/decode-error' % kind, g, dec, 'decode')
+            propagates(ctx, R + '/%s/get/decode-error' % kind, g, [d.call for d in dec], 'decode')
             # reading succeeds whenever the layer exists, has the kind's media type and decodes: no further cause of failure
             not_found = {(x, lo[3]) for lo in used_loops for x in g.preds.get(lo[3], ())}          # in place: "no layer of this digest" is the lookup's failure
-            only_fails_by(ctx, R + '/%s/get/only-expected-errors' % kind, g, gl + listing + dec, guard_sbs, 'the layer is found, has media type %s and decodes as %s' % (mt, msg), cut=not_found)
+            only_fails_by(ctx, R + '/%s/get/only-expected-errors' % kind, g, gl + listing + [d.call for d in dec], guard_sbs, 'the layer is found, has media type %s and decodes as %s' % (mt, msg), cut=not_found)
             okf = any(any(l in ctx.S.slice_operand(g, c.args[0]).call_objs for l in used) and bool(pay) and all(c in ctx.S.slice_operand(g, p).call_objs for p in pay) for c in fd)
             ctx.check(okf, R + '/%s/get/annotations' % kind, 'T-SIBLING', g.name, 'annotations are not read from the layer\'s descriptor as %s' % ann, g.site())
     # list readers: every layer of the kind's media type, decoded, with its own descriptor, in order
@@ -810,7 +846,7 @@ def kinds_rules(ctx):
         g = ctx.method(R + '/%s/anchor' % fn, ART, fn)
         if g is None: continue
         headers = set(g.loops())
-        dec = [c for c in g.calls if c.item in DECODERS and (c.trait or '').endswith('prost::Message') and message_type_is(g, c, msg, value_local=c.dst['l'])]
+        dec = [d for d in decode_sites(g) if message_type_is(g, d.call, msg, value_local=d.value)]
         # the loop over all layers of the archive in which the message is decoded -- or, after a loop fission, the
         # chain of loops leading there: [(loop over get_layers(), push into a staging Vec), .., (loop over that Vec, decode)]
         chain = None
@@ -833,16 +869,16 @@ def kinds_rules(ctx):
                         around = g.reach([some_bb], stop=headers | {gd.switch_bb})
                         if sink.bb in yr and sink.bb not in nr and sink.bb not in around: okg = (lo, yes)
         ctx.check(bool(okg), R + '/%s/filter' % fn, 'T-SIBLING', g.name, 'does not decode exactly the layers of media type %s as %s' % (mt, msg), g.site())
-        propagates(ctx, R + '/%s/decode-error' % fn, g, dec, 'decode')
+        propagates(ctx, R + '/%s/decode-error' % fn, g, [d.call for d in dec], 'decode')
         listing = [c for c in g.calls if c.item == 'get_layers' and 'OciArtifact' in c.name]
-        only_fails_by(ctx, R + '/%s/only-expected-errors' % fn, g, listing + dec, [], 'the layers can be listed and every layer of media type %s decodes as %s' % (mt, msg))
+        only_fails_by(ctx, R + '/%s/only-expected-errors' % fn, g, listing + [d.call for d in dec], [], 'the layers can be listed and every layer of media type %s decodes as %s' % (mt, msg))
         if not chain:
             # fail closed: the per-layer conditions cannot be placed
             ctx.bad(R + '/%s/every-match-kept' % fn, 'T-LOOPMUST', g.name, 'no loop over OciArtifact::get_layers() in which a layer is decoded as %s' % msg, g.site())
             ctx.bad(R + '/%s/same-layer' % fn, 'T-CARRY', g.name, 'no loop over OciArtifact::get_layers() in which a layer is decoded as %s' % msg, g.site())
         else:
             lo, d = chain[-1]; item = lo[0].dst['l']
-            pushes = [c for c in g.calls if c.item in PUSHES and c.bb in lo[4] and d in ctx.S.slice_operand(g, c.args[1]).call_objs]
+            pushes = [c for c in g.calls if c.item in PUSHES and c.bb in lo[4] and d.call in ctx.S.slice_operand(g, c.args[1]).call_objs]
             # from the test's yes side (the start of the iteration in a stage without the test) every path back to the
             # loop header goes through the stage's sink, and from the decoder through the final push
             kept = bool(pushes) and T.must_pass(g, d.bb, {lo[1]}, {c.bb for c in pushes})
